@@ -235,27 +235,145 @@ Lemma lex1_id cx s R :
   id_shape s -> nohead id_part R -> nohead (fun c => c =? 92) R -> lex1 cx (s ++ R) = Some (TId s, R).
 Proof. intro H. apply lex1_word. left. exact H. Qed.
 
-Definition num_shape (s : list Z) : Prop := s <> [] /\ forallb digit s = true.
+(* the texts printNonNegativeFloat produces: digits, digits.digits, digits e [-] digits, 0x hexdigits
+   (a leading "." as in ".5" is outside the modelled fragment) *)
+Definition int_shape (s : list Z) : Prop := s <> [] /\ forallb digit s = true.
+Definition num_shape (s : list Z) : Prop :=
+  int_shape s
+  \/ (exists ip fp, s = ip ++ 46 :: fp /\ int_shape ip /\ int_shape fp)
+  \/ (exists m sg ds, s = m ++ 101 :: sg ++ ds /\ int_shape m /\ (sg = [] \/ sg = [45]) /\ int_shape ds)
+  \/ (exists h, s = 48 :: 120 :: h /\ h <> [] /\ forallb hexd h = true).
+(* printNonNegativeFloat: needSpaceBeforeDot is set unless the text contains ".", "e" or "x" *)
+Definition dex (c : Z) : bool := (c =? 46) || (c =? 101) || (c =? 120).
+Definition plain_int (s : list Z) : bool := negb (existsb dex s).
 
 Lemma digit_facts c : digit c = true -> c <> 47 /\ c <> 60 /\ c <> 45 /\ id_start c = false /\ id_part c = true.
 Proof. unfold digit, id_part, id_start, digit. intro H. lia. Qed.
 
-Lemma lex1_num cx s R :
-  num_shape s -> nohead id_part R -> nohead (fun c => c =? 46) R -> lex1 cx (s ++ R) = Some (TNum s, R).
+Lemma existsb_app {A} (f : A -> bool) a b : existsb f (a ++ b) = existsb f a || existsb f b.
+Proof. induction a as [|x a IH]; [reflexivity|]. simpl. rewrite IH. apply orb_assoc. Qed.
+Lemma digits_no_dex s : forallb digit s = true -> existsb dex s = false.
 Proof.
-  intros [Hne Hall] HR Hdot. destruct s as [|c s']; [congruence|].
-  assert (Hc : digit c = true) by (simpl in Hall; apply andb_true_iff in Hall; tauto).
+  induction s as [|c s IH]; [reflexivity|]. simpl. intro H. apply andb_true_iff in H as [Hc Hs].
+  rewrite (IH Hs), orb_false_r. unfold dex, digit in *. lia.
+Qed.
+Lemma plain_int_spec s : num_shape s -> plain_int s = true -> int_shape s.
+Proof.
+  unfold plain_int. intros [H|[(ip & fp & E & _)|[(m & sg & ds & E & _)|(h & E & _)]]] Hp; [exact H| | |]; subst s; exfalso.
+  - rewrite existsb_app in Hp. simpl in Hp. rewrite orb_true_r in Hp. discriminate.
+  - rewrite existsb_app in Hp. simpl in Hp. rewrite orb_true_r in Hp. discriminate.
+  - simpl in Hp. discriminate.
+Qed.
+Lemma int_plain s : int_shape s -> plain_int s = true.
+Proof. intros [_ H]. unfold plain_int. rewrite (digits_no_dex s H). reflexivity. Qed.
+
+Lemma int_hd s : int_shape s -> exists c s', s = c :: s' /\ digit c = true.
+Proof. intros [Hne H]. destruct s as [|c s']; [congruence|]. exists c, s'. split; [reflexivity|]. simpl in H. apply andb_true_iff in H. tauto. Qed.
+
+Lemma num_hd s : num_shape s -> exists c s', s = c :: s' /\ digit c = true.
+Proof.
+  intros [H|[(ip & fp & E & Hi & _)|[(m & sg & ds & E & Hi & _)|(h & E & _)]]].
+  - apply int_hd. exact H.
+  - destruct (int_hd ip Hi) as (c & ip' & E' & Hc). subst. exists c, (ip' ++ 46 :: fp). split; [reflexivity | exact Hc].
+  - destruct (int_hd m Hi) as (c & m' & E' & Hc). subst. exists c, (m' ++ 101 :: sg ++ ds). split; [reflexivity | exact Hc].
+  - subst. exists 48, (120 :: h). split; reflexivity.
+Qed.
+Lemma last_app_cons {A} (a : list A) x b d : last (a ++ x :: b) d = last (x :: b) d.
+Proof. induction a as [|y a IH]; [reflexivity|]. simpl app. remember (a ++ x :: b) as l. destruct l as [|z l']; [destruct a; discriminate|]. exact IH. Qed.
+Lemma forallb_last (f : Z -> bool) s d : s <> [] -> forallb f s = true -> f (last s d) = true.
+Proof.
+  intros Hne H. apply (@exists_last _ s) in Hne as [l' [a E]]. subst s. rewrite last_last.
+  rewrite forallb_app in H. apply andb_true_iff in H as [_ H]. simpl in H. rewrite andb_true_r in H. exact H.
+Qed.
+Lemma hexd_id_part c : hexd c = true -> id_part c = true.
+Proof. unfold hexd, id_part, id_start, digit. lia. Qed.
+Lemma digit_id_part c : digit c = true -> id_part c = true.
+Proof. unfold id_part. intro H. rewrite H. apply orb_true_r. Qed.
+Lemma num_last_idpart s : num_shape s -> id_part (last s 0) = true.
+Proof.
+  intros [[Hne H]|[(ip & fp & E & _ & [Hne H])|[(m & sg & ds & E & _ & _ & [Hne H])|(h & E & Hne & H)]]].
+  - apply digit_id_part. apply forallb_last; assumption.
+  - subst. destruct fp as [|x fp']; [congruence|]. rewrite last_app_cons. change (last (46 :: x :: fp') 0) with (last (x :: fp') 0).
+    apply digit_id_part. apply forallb_last; assumption.
+  - subst. rewrite last_app_cons. destruct ds as [|x ds']; [congruence|].
+    replace (last (101 :: sg ++ x :: ds') 0) with (last (x :: ds') 0).
+    + apply digit_id_part. apply forallb_last; assumption.
+    + symmetry. change (101 :: sg ++ x :: ds') with ((101 :: sg) ++ x :: ds'). apply last_app_cons.
+  - subst. destruct h as [|x h']; [congruence|]. change (last (48 :: 120 :: x :: h') 0) with (last (x :: h') 0).
+    apply hexd_id_part. apply forallb_last; assumption.
+Qed.
+
+Lemma nohead_digit_of_idpart R : nohead id_part R -> nohead digit R.
+Proof. intros HR d r Hd. specialize (HR d r Hd). unfold id_part in HR. apply orb_false_iff in HR. tauto. Qed.
+
+Lemma exp_part_none R : nohead id_part R -> exp_part R = ([], R).
+Proof.
+  intro HR. destruct R as [|e r]; [reflexivity|]. specialize (HR e r eq_refl). unfold exp_part.
+  replace ((e =? 101) || (e =? 69)) with false; [reflexivity|]. unfold id_part, id_start in HR. lia.
+Qed.
+
+Lemma lex1_num cx s R :
+  num_shape s -> nohead id_part R -> (plain_int s = true -> nohead (fun c => c =? 46) R) -> lex1 cx (s ++ R) = Some (TNum s, R).
+Proof.
+  intros Hshape HR Hdot.
+  assert (HRd : nohead digit R) by (apply nohead_digit_of_idpart; exact HR).
+  assert (Hhead : exists c s', s = c :: s' /\ digit c = true /\ (c = 48 -> match s' ++ R with x :: _ => (x =? 120) || (x =? 88) | [] => false end = true -> exists h, s' = 120 :: h /\ h <> [] /\ forallb hexd h = true)).
+  { destruct Hshape as [H|[(ip & fp & E & Hi & _)|[(m & sg & ds & E & Hi & _)|(h & E & Hne & Hh)]]].
+    - destruct (int_hd s H) as (c & s' & E & Hc). exists c, s'. split; [exact E|]. split; [exact Hc|].
+      intros _ Hx. exfalso. subst s. destruct H as [_ H]. simpl in H. apply andb_true_iff in H as [_ H].
+      destruct s' as [|x s'']; simpl in Hx.
+      + destruct R as [|x r]; [discriminate|]. specialize (HR x r eq_refl). unfold id_part, id_start in HR. lia.
+      + simpl in H. apply andb_true_iff in H as [H _]. unfold digit in H. lia.
+    - destruct (int_hd ip Hi) as (c & ip' & E' & Hc). subst ip. exists c, (ip' ++ 46 :: fp). split; [subst s; reflexivity|]. split; [exact Hc|].
+      intros _ Hx. exfalso. destruct Hi as [_ H]. simpl in H. apply andb_true_iff in H as [_ H].
+      destruct ip' as [|x ip'']; simpl in Hx; [discriminate|]. simpl in H. apply andb_true_iff in H as [H _]. unfold digit in H. lia.
+    - destruct (int_hd m Hi) as (c & m' & E' & Hc). subst m. exists c, (m' ++ 101 :: sg ++ ds). split; [subst s; reflexivity|]. split; [exact Hc|].
+      intros _ Hx. exfalso. destruct Hi as [_ H]. simpl in H. apply andb_true_iff in H as [_ H].
+      destruct m' as [|x m'']; simpl in Hx; [discriminate|]. simpl in H. apply andb_true_iff in H as [H _]. unfold digit in H. lia.
+    - exists 48, (120 :: h). split; [exact E|]. split; [reflexivity|]. intros _ _. exists h. auto. }
+  destruct Hhead as (c & s' & Es & Hc & Hhex).
   destruct (digit_facts c Hc) as (A & B & C & D & E).
-  unfold lex1. change ((c :: s') ++ R) with (c :: (s' ++ R)).
   assert (H92c : (c =? 92) = false) by (unfold digit in Hc; lia).
-  rewrite comment_start_hd by assumption. rewrite D, H92c, Hc. simpl orb. cbv iota.
-  change (c :: s' ++ R) with ((c :: s') ++ R).
-  assert (HRd : nohead digit R).
-  { intros d r Hd. specialize (HR d r Hd). unfold id_part in HR. apply orb_false_iff in HR. tauto. }
-  rewrite (span_app' digit _ _ Hall HRd).
-  destruct R as [|d r].
-  - reflexivity.
-  - rewrite (Hdot d r eq_refl). rewrite (HR d r eq_refl). reflexivity.
+  unfold lex1. rewrite Es. change ((c :: s') ++ R) with (c :: (s' ++ R)).
+  rewrite comment_start_hd by assumption. rewrite D, H92c. simpl orb. cbv iota.
+  destruct ((c =? 48) && match s' ++ R with x :: _ => (x =? 120) || (x =? 88) | [] => false end) eqn:Ehx.
+  - (* hex *)
+    apply andb_true_iff in Ehx as [E48 Ex]. apply Z.eqb_eq in E48. destruct (Hhex E48 Ex) as (h & Eh & Hne & Hh). subst s'.
+    change ((120 :: h) ++ R) with (120 :: (h ++ R)). cbv iota.
+    assert (HRh : nohead hexd R).
+    { intros d r Hd. specialize (HR d r Hd). unfold id_part, id_start, digit in HR. unfold hexd, digit. lia. }
+    rewrite (span_app' hexd _ _ Hh HRh). destruct h as [|h0 h']; [congruence|].
+    destruct R as [|d r]; [reflexivity|]. rewrite (HR d r eq_refl). reflexivity.
+  - (* decimal *)
+    rewrite Hc. simpl orb. cbv iota. change (c :: s' ++ R) with ((c :: s') ++ R). rewrite <- Es.
+    destruct Hshape as [H|[(ip & fp & E' & Hi & Hf)|[(m & sg & ds & E' & Hi & Hsg & Hd)|(h & E' & Hne & Hh)]]].
+    + destruct H as [Hne Hall]. rewrite (span_app' digit _ _ Hall HRd).
+      assert (Hd46 : nohead (fun c => c =? 46) R) by (apply Hdot; apply int_plain; split; assumption).
+      assert (Em : (match R with d :: r1' => if d =? 46 then let '(fp, r2) := span digit r1' in (s ++ [46] ++ fp, r2) else (s, R) | [] => (s, R) end) = (s, R)).
+      { destruct R as [|d r]; [reflexivity|]. rewrite (Hd46 d r eq_refl). reflexivity. }
+      rewrite Em. rewrite (exp_part_none R HR). rewrite app_nil_r.
+      destruct R as [|d r]; [reflexivity|]. rewrite (HR d r eq_refl). reflexivity.
+    + subst s. destruct Hi as [_ Hi]. destruct Hf as [_ Hf]. rewrite <- app_assoc. change ((46 :: fp) ++ R) with (46 :: (fp ++ R)).
+      assert (N46 : nohead digit (46 :: fp ++ R)) by (intros d r Hd; inversion Hd; reflexivity).
+      rewrite (span_app' digit _ _ Hi N46). change (46 =? 46) with true. cbv iota.
+      rewrite (span_app' digit _ _ Hf HRd). rewrite (exp_part_none R HR). rewrite app_nil_r.
+      replace (ip ++ [46] ++ fp) with (ip ++ 46 :: fp) by reflexivity.
+      destruct R as [|d r]; [reflexivity|]. rewrite (HR d r eq_refl). reflexivity.
+    + subst s. destruct Hi as [_ Hi]. destruct Hd as [Hdne Hd]. rewrite <- app_assoc. change ((101 :: sg ++ ds) ++ R) with (101 :: ((sg ++ ds) ++ R)).
+      assert (N101 : nohead digit (101 :: (sg ++ ds) ++ R)) by (intros d r Hd'; inversion Hd'; reflexivity).
+      rewrite (span_app' digit _ _ Hi N101). change (101 =? 46) with false. cbv iota.
+      assert (Eexp : exp_part (101 :: (sg ++ ds) ++ R) = (101 :: sg ++ ds, R)).
+      { unfold exp_part. change ((101 =? 101) || (101 =? 69)) with true. cbv iota.
+        destruct ds as [|d0 ds']; [congruence|].
+        assert (Hd0 : digit d0 = true) by (simpl in Hd; apply andb_true_iff in Hd; tauto).
+        destruct Hsg as [Esg|Esg]; subst sg.
+        - simpl app. cbv iota. replace ((d0 =? 43) || (d0 =? 45)) with false by (unfold digit in Hd0; lia).
+          change (d0 :: ds' ++ R) with ((d0 :: ds') ++ R). cbv beta iota. rewrite (span_app' digit _ _ Hd HRd). reflexivity.
+        - simpl app. cbv iota. change ((45 =? 43) || (45 =? 45)) with true. cbv beta iota.
+          change (d0 :: ds' ++ R) with ((d0 :: ds') ++ R). rewrite (span_app' digit _ _ Hd HRd). reflexivity. }
+      rewrite Eexp.
+      destruct R as [|d r]; [reflexivity|]. rewrite (HR d r eq_refl). reflexivity.
+    + exfalso. subst s. inversion Es; subst c s'. simpl in Ehx. discriminate.
 Qed.
 
 (* ---- regular expression literal ---- *)
@@ -336,6 +454,7 @@ Proof.
   match goal with H : negb (c0 =? 92) = true |- _ => apply negb_true_iff in H; rewrite H end.
   match goal with H : negb (digit c0) = true |- _ => apply negb_true_iff in H; rewrite H end.
   simpl orb.
+  replace (c0 =? 48) with false by (symmetry; unfold digit in *; lia). simpl andb. cbv iota.
   assert (Hd : (c0 =? 46) && match p' ++ R with d :: _ => digit d | [] => false end = false).
   { destruct (c0 =? 46) eqn:E46; [|reflexivity]. simpl.
     match goal with HH : _ || zlist_eqb _ [46; 46; 46] = true |- _ => change (negb true) with false in HH; rewrite orb_false_l in HH; apply orb_true_iff in HH as [HA|HA] end.
